@@ -423,6 +423,10 @@ import xmlcorr as X
 from odf.element import Element
 spec = json.loads(sys.stdin.read())
 _real_stdout = sys.stdout; sys.stdout = sys.stderr     # the library prints diagnostics; keep them out of the answer
+if spec.get('import_first', True):
+    # a program imports the whole library at its top: module-level state of odf.opendocument (anything computed from
+    # nsdict / Element.namespaces at import time) then predates every tree the program builds
+    import odf.opendocument, odf.load
 out = {}
 prefixes = []
 for ns in spec.get('history', []):
@@ -466,6 +470,9 @@ for ns in spec.get('touch', []):
 docs = []
 for e in early:
     docs.append(X.to_xml(e))
+if spec.get('twice'):
+    for e in early:
+        docs.append(X.to_xml(e))
 for t in spec.get('trees', []):
     e = X.build(fix(t))
     docs.append(X.to_xml(e))
